@@ -19,6 +19,7 @@ package c20
 import (
 	"bytes"
 	"context"
+	"encoding/binary"
 	"fmt"
 	"io"
 	"net"
@@ -26,6 +27,7 @@ import (
 	"strconv"
 	"strings"
 	"sync"
+	"syscall"
 	"testing"
 	"time"
 
@@ -303,8 +305,60 @@ func getConcRig() (*concRig, error) {
 	return crRig, crErr
 }
 
-// serverRxQueue: unread octets in the receive queue of the server-side socket (local port sp, peer port cp).
+// serverRxQueue: unread octets in the receive queue of the server-side socket (local port sp, peer port cp),
+// asked from the kernel by an exact-match sock_diag request; /proc/net/tcp is the (slow) fallback.
 func serverRxQueue(sp, cp int) (int, bool) {
+	if n, ok := rxQueueSockDiag(sp, cp); ok {
+		return n, true
+	}
+	return rxQueueProc(sp, cp)
+}
+
+var diagBroken bool
+
+func rxQueueSockDiag(sp, cp int) (int, bool) {
+	if diagBroken {
+		return 0, false
+	}
+	fd, err := syscall.Socket(syscall.AF_NETLINK, syscall.SOCK_DGRAM|syscall.SOCK_CLOEXEC, 4 /* NETLINK_SOCK_DIAG */)
+	if err != nil {
+		diagBroken = true
+		return 0, false
+	}
+	defer syscall.Close(fd)
+	req := make([]byte, 16+56)
+	binary.LittleEndian.PutUint32(req[0:], uint32(len(req)))
+	binary.LittleEndian.PutUint16(req[4:], 20) // SOCK_DIAG_BY_FAMILY
+	binary.LittleEndian.PutUint16(req[6:], 1)  // NLM_F_REQUEST
+	binary.LittleEndian.PutUint32(req[8:], 1)
+	b := req[16:]
+	b[0], b[1] = syscall.AF_INET, syscall.IPPROTO_TCP
+	binary.LittleEndian.PutUint32(b[4:], 0xFFFFFFFF) // all states
+	id := b[8:]
+	binary.BigEndian.PutUint16(id[0:], uint16(sp))
+	binary.BigEndian.PutUint16(id[2:], uint16(cp))
+	copy(id[4:], []byte{127, 0, 0, 1})
+	copy(id[20:], []byte{127, 0, 0, 1})
+	binary.LittleEndian.PutUint32(id[40:], 0xFFFFFFFF) // INET_DIAG_NOCOOKIE
+	binary.LittleEndian.PutUint32(id[44:], 0xFFFFFFFF)
+	if err := syscall.Sendto(fd, req, 0, &syscall.SockaddrNetlink{Family: syscall.AF_NETLINK}); err != nil {
+		diagBroken = true
+		return 0, false
+	}
+	tv := syscall.Timeval{Usec: 200000}
+	syscall.SetsockoptTimeval(fd, syscall.SOL_SOCKET, syscall.SO_RCVTIMEO, &tv)
+	resp := make([]byte, 4096)
+	n, _, err := syscall.Recvfrom(fd, resp, 0)
+	if err != nil || n < 16+72 {
+		return 0, false
+	}
+	if binary.LittleEndian.Uint16(resp[4:]) != 20 {
+		return 0, false // NLMSG_ERROR: no such socket (yet)
+	}
+	return int(binary.LittleEndian.Uint32(resp[16+56:])), true
+}
+
+func rxQueueProc(sp, cp int) (int, bool) {
 	b, err := os.ReadFile("/proc/net/tcp")
 	if err != nil {
 		return 0, false
